@@ -44,6 +44,8 @@ def tick_summary(may_exit=True):
                 code = VAny(core.fresh('exit_code', core.AnySort()))
                 I.st.uses_any = True
                 I.st.ghost['EXIT_CODE'] = code
+                I.st.ghost['EXIT_AT_TICK'] = len(log(I, 'TICKS'))
+                I.assume(r0, 'SystemExit comes from stop(code), which has no effect (and raises nothing) unless the manager was running')
                 I.assume(z3.Not(I.fz(self, '_running')), 'SystemExit leaves tick through stop(code), which cleared the flag')
                 raise RaiseSig(VExc('SystemExit', [code], {'code': code}))
             if c == 2:
@@ -151,6 +153,9 @@ def run_post(I, outcome, ctx):
         if v.cls == 'SystemExit' and 'EXIT_CODE' in g:
             I.oblige('exit_code_propagates_to_the_caller', z3.BoolVal(v.args and v.args[0] is g['EXIT_CODE']))
         I.oblige('final_tick_runs_even_on_exit', z3.BoolVal(order[-1] == 'tick'))
+        if 'EXIT_AT_TICK' in g and g['EXIT_AT_TICK'] <= g.get('TICKS_IN_LOOP_MAX', 10 ** 9):
+            I.oblige('fade_out_also_on_exit_code', z3.BoolVal(len(ticks) - g['EXIT_AT_TICK'] >= 4),
+                     detail='stop(code) queued `stopped` and raised SystemExit out of the loop: the fade-out ticks must still dispatch it')
         return
     cover(I, 'return')
     I.oblige('returns_not_running', z3.Not(I.fz(self, '_running')), detail='run() returns only after stop()')
